@@ -111,13 +111,27 @@ func runUnits(cfg *Config, ld *Loaded, db *SpecDB, keys []string) []*UnitResult 
 					}
 					if res.Spec != nil {
 						for ord := range res.Spec.Loops {
-							if ord < 1 || ord > len(eng.loopsOf(fn)) {
-								u.errs = append(u.errs, fmt.Sprintf("contract names loop %d but the function has %d loops", ord, len(eng.loopsOf(fn))))
+							if ord < 1 {
+								u.errs = append(u.errs, fmt.Sprintf("contract names loop %d", ord))
+							} else if ord > len(eng.loopsOf(fn)) {
+								u.orphanLoops = append(u.orphanLoops, ord) // may be adopted by the loop of an inlined helper
 							}
 						}
+						sort.Ints(u.orphanLoops)
 					}
 				}
 				u.Run()
+				if len(u.errs) == 0 {
+					adoptedOrds := map[int]bool{}
+					for _, ord := range u.adopted {
+						adoptedOrds[ord] = true
+					}
+					for _, ord := range u.orphanLoops {
+						if !adoptedOrds[ord] {
+							u.errs = append(u.errs, fmt.Sprintf("contract names loop %d but the function has %d loops", ord, len(eng.loopsOf(fn))))
+						}
+					}
+				}
 			}()
 			if cfg.Verbose {
 				for l, names := range u.inferred {
